@@ -228,6 +228,31 @@ def many_regions_case(seed, i):
     return core.ImplOnlyCase("backend", lines, {"engine": "tikv", "borders": [], "adv": [], "many": nreg}, timeout=180)
 
 
+def reopen_case(seed, i, engine):
+    """the node is restarted over the same data in the middle of a history (Badger: the store is closed - its memtable becomes an
+    sst table - and opened again): however the engine cuts a scanned interval afterwards, unlimited and limited lists, counts,
+    the whole-range stream and the streams over the advertised partitions see every key once, in its newest version."""
+    r = rng_for(seed, "c13reopen/%d" % i)
+    keys = sorted(r.sample([k for k in KEY_POOL if b"events" not in k], r.randint(3, 6)))
+    sh = hist.Shadow()
+    lines = [hist.cfg_line(engine)]
+    lines += hist.gen_writes(r, sh, r.randint(6, 14), keys, p_ok=0.9)
+    lines += ["rev", "reopen"]
+    # the largest key (the border of the table the close has written) and others are written again
+    lines += hist.gen_writes(r, sh, r.randint(2, 4), [keys[-1]], p_ok=1.0)
+    lines += hist.gen_writes(r, sh, r.randint(2, 6), keys, p_ok=0.9)
+    lines.append("rev")
+    a, b = PREFIX + b"/", PREFIX + b"0"
+    for R in (0, sh.dealt):
+        lines += ["list %s %s %d 0" % (hx(a), hx(b), R), "list %s %s %d 2" % (hx(a), hx(b), R),
+                  "stream %s %s %d" % (hx(enc(a, 0)), hx(enc(b, 0)), R), "streamadv %s %s %d" % (hx(a), hx(b), R)]
+    lines += ["count %s %s" % (hx(a), hx(b)), "reopen"]
+    lines += hist.gen_writes(r, sh, r.randint(1, 3), [keys[-1], keys[0]], p_ok=1.0)
+    lines += ["rev", "compact %d" % sh.dealt, "list %s %s 0 0" % (hx(a), hx(b)), "count %s %s" % (hx(a), hx(b)),
+              "streamadv %s %s 0" % (hx(a), hx(b))]
+    return core.Case("backend", lines, {"engine": engine, "borders": [], "adv": [], "reopen": True})
+
+
 def check(rep, tier, seed):
     n = 40 if tier == "quick" else 900
     cases = []
@@ -242,6 +267,7 @@ def check(rep, tier, seed):
     cases += faults
     cases += [slow_partner_case(seed, i, ["memkv", "tikv", "badger"][i % 3]) for i in range(1 if tier == "quick" else 6)]
     cases += [many_regions_case(seed, i) for i in range(1 if tier == "quick" else 4)]
+    cases += [reopen_case(seed, i, ["badger", "metrics-badger", "memkv", "tikv"][i % 4]) for i in range(6 if tier == "quick" else 120)]
     core.run_cases(cases)
     def pick(c):
         hit = fault_oracle(c) if c.meta.get("fault") else oracle(c)
